@@ -462,6 +462,11 @@ def main(argv):
         return 2
     P = registry.PROPS[prop]
     t0 = time.time()
+    global GEN
+    if not os.environ.get('VERIF_GEN'):
+        # one generated-files directory per (property, tier): several properties share units (c01 serves six of them), and two checks
+        # running at the same time must not overwrite each other's generated file while Verus reads it
+        GEN = os.path.join(ROOT, 'gen', '%s-%s' % (prop, tier))
     os.makedirs(GEN, exist_ok=True)
     os.makedirs(EVID, exist_ok=True)
     results = []
